@@ -19,19 +19,20 @@ import (
 // *dependency* the other node of the edge; Pred is the map keyed by the
 // dependent's id that collects dependency ids, Succ its inverse.
 type GraphRoles struct {
-	AddEdge  *ssa.Function // the edge writer
-	EdgeLoop *ssa.Function // the function ranging over Step.Depends
-	DepLoop  *ir.Loop      // that loop
-	Owner    ssa.Value     // in EdgeLoop: the node whose Depends is read
-	Setup    *ssa.Function // the function that refuses the graph when the cycle test is positive
-	HasCycle *ssa.Function // the cycle test: the boolean function whose positive answer makes Setup return an error
-	Reset    *ssa.Function // the retry reset: the construction-phase function that zeroes node states
-	Pred     string        // adjacency[dependent] = its dependencies   (today: "to")
-	Succ     string        // adjacency[dependency] = its dependents    (today: "from")
-	AllNodes []string
-	Updates  []EdgeUpdate // the adjacency updates of the edge writer
-	why      string       // what could not be resolved
-	ok       bool
+	AddEdge         *ssa.Function // the edge writer
+	EdgeLoop        *ssa.Function // the function ranging over Step.Depends
+	DepLoop         *ir.Loop      // that loop
+	Owner           ssa.Value     // in EdgeLoop: the node whose Depends is read
+	Setup           *ssa.Function // the function that refuses the graph when the cycle test is positive
+	HasCycle        *ssa.Function // the cycle test: the boolean function whose positive answer makes Setup return an error
+	Reset           *ssa.Function // the retry reset: the construction-phase function that zeroes node states
+	Pred            string        // adjacency[dependent] = its dependencies   (today: "to")
+	Succ            string        // adjacency[dependency] = its dependents    (today: "from")
+	AllNodes        []string
+	Updates         []EdgeUpdate // the adjacency updates of the edge writer
+	why             string       // what could not be resolved
+	addEdgeFromLoop bool
+	ok              bool
 }
 
 // EdgeUpdate is one `g.<Field>[K.id] = append(g.<Field>[K.id], A.id)` of the edge writer.
@@ -153,11 +154,41 @@ func (e *Env) graphRoles() *GraphRoles {
 			fields[u.Field] = true
 		}
 		if len(fields) >= 2 {
-			if g.AddEdge != nil {
-				g.why = "two functions update both adjacency maps: " + ShortFn(g.AddEdge) + ", " + ShortFn(f)
+			// among several functions that update both maps, the edge writer is the one
+			// the loop over Step.Depends uses (the others are reported by C01.edges as
+			// additional writers)
+			usedByDependsLoop := false
+			for _, lf := range e.RepoFuncsSorted() {
+				if rootFn(lf).Package() != sp {
+					continue
+				}
+				for _, l := range ir.Loops(lf) {
+					if l.Ranged == nil {
+						continue
+					}
+					if p, ok := e.C.PathOf(l.Ranged); !ok || !p.Suffix("Step.Depends") {
+						continue
+					}
+					if lf == f {
+						usedByDependsLoop = true
+					}
+					for b := range l.Blocks {
+						for _, in := range b.Instrs {
+							if c, ok := in.(*ssa.Call); ok && c.Call.StaticCallee() == f {
+								usedByDependsLoop = true
+							}
+						}
+					}
+				}
+			}
+			if g.AddEdge != nil && !usedByDependsLoop {
+				continue
+			}
+			if g.AddEdge != nil && usedByDependsLoop && g.addEdgeFromLoop {
+				g.why = "two functions add dependency edges: " + ShortFn(g.AddEdge) + ", " + ShortFn(f)
 				return g
 			}
-			g.AddEdge, g.Updates = f, us
+			g.AddEdge, g.Updates, g.addEdgeFromLoop = f, us, usedByDependsLoop
 		}
 	}
 	if g.AddEdge == nil {
@@ -680,7 +711,12 @@ func evalCmp(op token.Token, x, y ssa.Value) (decided, val bool) {
 // conditions). All literals about one call are resolved against the same return.
 // Bounded.
 func (e *Env) expandHelperCalls(lits []ir.NLit, depth int) [][]ir.NLit {
-	return e.expandHelperCallsX(lits, depth, map[*ssa.Call]bool{})
+	var out [][]ir.NLit
+	for _, a := range e.expandHelperCallsX(lits, depth, map[*ssa.Call]bool{}) {
+		// and the lookups in constant tables (`v, ok := table[k]`)
+		out = append(out, e.expandTableLits(a)...)
+	}
+	return out
 }
 
 func (e *Env) expandHelperCallsX(lits []ir.NLit, depth int, done map[*ssa.Call]bool) [][]ir.NLit {
@@ -1029,4 +1065,82 @@ func (e *Env) existsPredicate(f *ssa.Function) (is, positive bool) {
 		}
 	}
 	return false, false
+}
+
+// waysTo returns the ways control can reach an instruction, each as a
+// conjunction: the dominating conditions (with the call-site context of the
+// virtual inlining view) refined by the reaching condition inside the innermost
+// enclosing loop body (or the function). A guard written as one disjunction
+// (`if a || (b && c) { continue }`) leaves facts that no single dominating edge
+// carries; the reaching condition has them.
+func (e *Env) waysTo(in ssa.Instruction) [][]ir.NLit {
+	base := e.DCS(in)
+	fn := in.Parent()
+	start := fn.Blocks[0]
+	if l := ir.InnermostLoop(ir.Loops(fn), in.Block()); l != nil {
+		for _, sb := range l.Header.Succs {
+			if l.Blocks[sb] {
+				start = sb
+			}
+		}
+	}
+	dnf, ok := ir.ReachingCondition(start, in.Block(), 32)
+	if !ok || len(dnf) == 0 {
+		return [][]ir.NLit{base}
+	}
+	ff := e.Facts(fn)
+	var out [][]ir.NLit
+	for _, cj := range dnf {
+		for _, conj := range ff.ExpandDNFRegion(start, []ir.Lit(cj)) {
+			out = append(out, append(append([]ir.NLit{}, base...), ir.NormalizeAll(conj)...))
+		}
+	}
+	if len(out) == 0 || len(out) > 64 {
+		return [][]ir.NLit{base}
+	}
+	return out
+}
+
+// ways expands a conjunction through the helpers and constant tables it
+// mentions - helpers with one call site, helpers and one-expression predicates
+// with several (their parameters bound to this call's arguments) - and calls fn
+// once per alternative, with the bindings in force: inside fn, value identity
+// (SameValue, PathOf roots, IsFieldRead) sees a predicate's parameter as the
+// argument it was called with.
+func (e *Env) ways(lits []ir.NLit, fn func(lits []ir.NLit)) {
+	for _, alt := range e.expandBound(lits) {
+		bind := map[ssa.Value]ssa.Value{}
+		conflict := map[ssa.Value]bool{}
+		var plain []ir.NLit
+		for _, bl := range alt {
+			plain = append(plain, bl.NLit)
+			for k, v := range bl.Bind {
+				if old, ok := bind[k]; ok && old != v {
+					conflict[k] = true
+				}
+				bind[k] = v
+			}
+		}
+		for k := range conflict {
+			delete(bind, k)
+		}
+		for _, t := range e.expandTableLits(plain) {
+			undo := ir.SetOverride(bind)
+			fn(t)
+			undo()
+		}
+	}
+}
+
+// restrictWays is ir.Restrict over every way the conjunction can hold (helpers,
+// predicates and constant tables expanded): the union of the values the subject
+// can have.
+func (e *Env) restrictWays(lits []ir.NLit, subject func(ssa.Value) bool, names map[int64]string) ir.EnumSet {
+	out := ir.EnumSet{}
+	e.ways(lits, func(alt []ir.NLit) {
+		for v := range ir.Restrict(alt, subject, names) {
+			out[v] = true
+		}
+	})
+	return out
 }
